@@ -107,6 +107,9 @@ where
     CS: BbsCiphersuite,
     CS::Expander: for<'a> ExpandMsg<'a>,
 {
+    #[cfg(feature = "zkryptium_verif")]
+    crate::verif_hooks::charge_generators(count);
+
     let api_id = api_id.unwrap_or(&[]);
 
     let seed_dst = [api_id, CS::GENERATOR_SEED_DST].concat();
